@@ -225,6 +225,11 @@ class ShapeDomain(Domain):
                             new[new.index(-1)] = 1
                         else:
                             new[new.index(-1)] = '*'.join(str(x) for x in left)
+                    # a reshape regroups adjacent axes in order; symbolic dimensions may not change places
+                    osym = [d for d in v.dims if isinstance(d, str)]
+                    nsym = [d for d in new if isinstance(d, str)]
+                    if osym != nsym and sorted(map(str, osym)) == sorted(map(str, nsym)):
+                        self.interp.emit('reshape-reorders', old=v.dims, new=tuple(new), node=node)
                     return Sh(tuple(new))
                 return Unknown('reshape')
         return None
@@ -296,6 +301,8 @@ class ShapeDomain(Domain):
             return Const(args[1].v in ('ndim', 'shape', 'dtype', 'size', 'astype', 'reshape', '__len__', '__iter__'))
         if last == 'squeeze' and isinstance(a0, Sh):
             return Sh(tuple(d for d in a0.dims if d != 1))
+        if last in ('array', 'asarray') and isinstance(a0, Tup) and a0.items and all(isinstance(x, Sh) for x in a0.items) and all(x.dims == a0.items[0].dims for x in a0.items):
+            return Sh((len(a0.items),) + a0.items[0].dims)
         if last == 'stack' and isinstance(a0, Tup) and all(isinstance(x, Sh) for x in a0.items) and a0.items:
             ax = kwargs.get('axis', Const(0))
             base = a0.items[0].dims
